@@ -176,8 +176,40 @@ fn body(p: &P) -> Result<(), String> {
     Ok(())
 }
 
+/// n routes registered in a row while every channel is idle and every sender stays alive; then one
+/// message on the last-registered route must reach its callback
+fn quiet_burst_body(n: usize) -> Result<(), String> {
+    let proxy = Arc::new(RouterProxy::new());
+    let (done_tx, done_rx) = crossbeam_channel::unbounded::<(usize, u32)>();
+    let mut txs = Vec::new();
+    for i in 0..n {
+        let (tx, rx) = ipc::channel::<u32>().map_err(|e| e.to_string())?;
+        let d = done_tx.clone();
+        proxy.add_route(
+            rx.to_opaque(),
+            Box::new(move |m| {
+                let _ = d.send((i, m.to::<u32>().unwrap_or(999_999)));
+            }),
+        );
+        txs.push(tx);
+    }
+    txs[n - 1].send(77).map_err(|e| e.to_string())?;
+    match done_rx.recv() {
+        Ok((i, 77)) if i == n - 1 => {},
+        other => return Err(format!("the message on the route registered last was not handled by its callback: {:?}", other)),
+    }
+    drop(txs);
+    std::mem::forget(proxy);
+    Ok(())
+}
+
 pub fn scenarios(tier: Tier) -> Vec<Scenario> {
     let mut v = Vec::new();
+    for n in [9usize, 12, 33] {
+        let mut cfg = sched_cfg();
+        cfg.post_points = true;
+        v.push(Scenario::new(format!("quiet burst of {} routes", n), cfg, if tier.is_quick() || n > 12 { 0 } else { 1 }, move || quiet_burst_body(n)));
+    }
     let mut add = |routes: Vec<Route>, bound: u32| {
         let p = P { routes };
         let name = format!("{:?}", p.routes.iter().map(|r| format!("{:?}/pre{}/post{}/by{}{}{}", r.kind, r.pre, r.post, r.by, if r.big { "/big" } else { "" }, if r.cb_yield { "/cb-yields" } else { "" })).collect::<Vec<_>>());
